@@ -822,8 +822,8 @@ func (g *gen) histMixed(o mixOpts) {
 		} else {
 			fate := "commit"
 			if g.r.Intn(100) < o.pNoCommit {
-				fate = pick(g.r, []string{"rollback", "oversize", "fault", "fault", "syncfault"})
-				if !o.faults && (fate == "fault" || fate == "syncfault") {
+				fate = pick(g.r, []string{"rollback", "oversize", "fault", "sweep", "syncfault"})
+				if !o.faults && (fate == "fault" || fate == "syncfault" || fate == "sweep") {
 					fate = "rollback"
 				}
 			}
@@ -832,52 +832,113 @@ func (g *gen) histMixed(o mixOpts) {
 				bigAt = g.r.Intn(nops)
 			}
 			kinds := o.kinds
-			if nops > 1 && g.r.Intn(3) == 0 {
+			focused := nops > 1 && g.r.Intn(3) == 0
+			if focused {
 				// a focused transaction: several operations on one target
-				g.focus = map[string]string{}
 				kinds = []string{pick(g.r, o.kinds)}
 				nops += 1 + g.r.Intn(3)
 			}
-			for j := 0; j < nops; j++ {
-				if j == bigAt {
-					t.Put(pick(g.r, g.u.KvBuckets), []byte(pick(g.r, kvKeys)), big, 0)
-				} else {
-					g.mutOne(t, kinds)
+			collide := o.buckets != nil && g.r.Intn(100) < 30
+			// the operations of the transaction, reproducible from opSeed (the
+			// fault sweep below runs the same transaction several times)
+			opSeed := g.r.Int63()
+			body := func(t *hx.Tx) {
+				saved := g.r
+				g.r = rand.New(rand.NewSource(opSeed))
+				if focused {
+					g.focus = map[string]string{}
 				}
-				if g.r.Intn(100) < o.pInTxRead {
-					g.readSome(t, o.kinds, false)
+				if collide {
+					// C04: writes whose bucket+key concatenations coincide, in one transaction
+					c := pick(g.r, []string{"ab", "aba", "abab", "ba", "bab", "abc", "bk1"})
+					for i := 0; i < len(c); i++ {
+						b, k := c[:i], c[i:]
+						okB := false
+						for _, x := range o.buckets {
+							okB = okB || x == b
+						}
+						okK := false
+						for _, x := range kvKeys {
+							okK = okK || x == k
+						}
+						if okB && okK && g.r.Intn(4) > 0 {
+							t.Put(b, []byte(k), []byte("v-"+b+"/"+k), 0)
+						}
+					}
+				}
+				for j := 0; j < nops; j++ {
+					if j == bigAt {
+						t.Put(pick(g.r, g.u.KvBuckets), []byte(pick(g.r, kvKeys)), big, 0)
+					} else {
+						g.mutOne(t, kinds)
+					}
+					if g.r.Intn(100) < o.pInTxRead {
+						g.readSome(t, o.kinds, false)
+					}
+				}
+				g.focus = nil
+				g.r = saved
+			}
+			body(t)
+			faultAt := func(k int, partial int, syncOnly bool) {
+				cnt := 0
+				obs.Fault = func(m *hx.Mut) (bool, int) {
+					if syncOnly != (m.Op == "sync") {
+						return false, 0
+					}
+					cnt++
+					return cnt-1 == k, partial
 				}
 			}
-			g.focus = nil
 			switch fate {
 			case "rollback":
 				t.Rollback()
 			case "fault", "syncfault":
 				// fail the k-th file mutation of this commit (a write, possibly
 				// after a partial write; or a sync after a completed write)
-				k := g.r.Intn(2*nops + 2)
 				partial := -1
 				if g.r.Intn(2) == 0 {
 					partial = 1 + g.r.Intn(60)
 				}
-				cnt := 0
-				obs.Fault = func(m *hx.Mut) (bool, int) {
-					if fate == "syncfault" {
-						if m.Op != "sync" {
-							return false, 0
-						}
-					} else if m.Op == "sync" {
-						return false, 0
-					}
-					cnt++
-					if cnt-1 == k {
-						return true, partial
-					}
-					return false, 0
-				}
+				faultAt(g.r.Intn(2*nops+2), partial, fate == "syncfault")
 				obs.ResetCounters()
 				t.Commit(func() int { return obs.DatWrites })
 				obs.Fault = nil
+			case "sweep":
+				// C12, exhaustive over the fault position: the same transaction is
+				// committed with the j-th file mutation failing, for j = 0, 1, ...
+				// until a commit goes through; after every failed attempt the
+				// reads below must see nothing of it
+				for j := 0; j < 64; j++ {
+					partial := -1
+					if j%2 == 1 {
+						partial = 1 + g.r.Intn(60)
+					}
+					faultAt(j, partial, false)
+					before := obs.Injected
+					obs.ResetCounters()
+					err := t.Commit(func() int { return obs.DatWrites })
+					obs.Fault = nil
+					if err == nil || obs.Injected == before {
+						break
+					}
+					g.view(func(t *hx.Tx) { g.readSome(t, o.kinds, false) })
+					if j%3 == 0 {
+						g.s.Obs()
+					}
+					if j%5 == 4 {
+						g.s.Shadow(dir + "-shadow")
+					}
+					if g.s.Panics > 0 {
+						return
+					}
+					var berr error
+					t, berr = g.s.Begin(true)
+					if berr != nil {
+						return
+					}
+					body(t)
+				}
 			default:
 				obs.ResetCounters()
 				t.Commit(func() int { return obs.DatWrites })
